@@ -1,6 +1,7 @@
 //! vf-index: checks of the index crates (C10 B-tree, C11 BM25, C12 HNSW).
 mod c10;
 mod c11;
+mod c12;
 
 use vf_core::Runner;
 
@@ -15,6 +16,11 @@ fn main() {
         "C11" => {
             let mut r = Runner::from_env("C11", "exploration");
             c11::run(&mut r);
+            r.finish();
+        }
+        "C12" => {
+            let mut r = Runner::from_env("C12", "exploration");
+            c12::run(&mut r);
             r.finish();
         }
         other => {
